@@ -20,6 +20,7 @@ func runPath(P *Prog, sol, alt *Solver, root Root, prefix []Dec, wantWitness boo
 		strCache:  map[string]*Backing{},
 		onceDone:  map[*Value]bool{},
 		funcsSeen: map[string]bool{},
+		fnSeen:    map[*ssa.Function]bool{},
 		maxSteps:  root.MaxSteps,
 		maxDecs:   root.MaxDecs,
 		trace:     os.Getenv("GOSYM_TRACE") != "",
